@@ -442,6 +442,14 @@ def eval_one(sub, case, rec):
             rec.fail('unexpected %s from library: %s' % (type(e).__name__, str(e)[:200]),
                      site='%s:%s' % (os.path.relpath(os.path.realpath(last.filename), REPO), last.name),
                      observed=e, coords={'exc': type(e).__name__})
+        elif isinstance(e, (TypeError, AttributeError, IndexError)) and not isinstance(e, HarnessError) and \
+                any(os.sep + 'checks' + os.sep in fs.filename for fs in traceback.extract_tb(tb)[-2:]):
+            # the evaluator of the check could not even read what the library returned (None where a number is documented, a
+            # result of another shape or class): never seen on the unchanged tree - a different result, hence a violation
+            fs = traceback.extract_tb(tb)[-1]
+            rec.fail('the library returned something the check could not read as the documented result (%s: %s, at %s:%d)'
+                     % (type(e).__name__, str(e)[:160], os.path.basename(fs.filename), fs.lineno), site='result-shape:' + sub.name,
+                     observed=traceback.format_exc()[-400:], coords={'exc': type(e).__name__})
         else:
             raise HarnessError('harness exception in %s case %r:\n%s' % (sub.name, case, traceback.format_exc()))
     finally:
